@@ -352,6 +352,7 @@ class PriceLoop(FunctionContract):
             mk = lambda nm: np.array([ctx.PATH.fresh(nm, "r") for _ in range(n)], dtype=object)
             res = Obj(it.get_class(ST + "MLMCResults"))
             res.fields.update(ml=mk("ml"), vl=mk("vl"), cl=mk("cl"), Nl=np.array(Nl, dtype=object))
+            g["results_as_computed"] = {k: list(res.fields[k]) for k in ("ml", "vl", "cl")}     # the sample statistics of this call
             b["self"].fields["mlmc_results"] = res
         interp.hooks[ST + "MLMCStatistics.set_mlmc_results"] = set_results
 
@@ -420,6 +421,15 @@ class PriceLoop(FunctionContract):
         n = len(rep)
         out["reported-N-is-the-number-of-filled-rows-and-of-simulated-samples"] = And(*[And(compare(rep[l], g["filled"][l], "=="), compare(rep[l], g["simulated"][l], "==")) for l in range(n)]) if n <= len(g["filled"]) else False
         out["never-simulates-a-level-above-the-maximum"] = all(l <= g["Lmax"] for l in g["levels_run"]) and n - 1 <= g["Lmax"]
+        # the reported level means / variances / costs are the sample statistics as computed from the stored samples, not
+        # the engine's working copies (its work-around for levels >= 3 and its extrapolations write into ml / vl / cl)
+        rep_res, snap = g["stats"].fields.get("mlmc_results"), g.get("results_as_computed")
+        if rep_res is not None and snap is not None:
+            same = []
+            for k_ in ("ml", "vl", "cl"):
+                cur = list(np.ravel(np.asarray(rep_res.fields[k_], dtype=object)))
+                same.append(len(cur) == len(snap[k_]) and all((a_ is b_) or (not is_sym(a_) and not is_sym(b_) and a_ == b_) for a_, b_ in zip(cur, snap[k_])))
+            out["reported-statistics-are-the-sample-statistics-not-the-engine's-working-values"] = all(same)
         ns, acc = g.get("last_Ns"), g.get("accepted")
         if ns is not None and acc is None and len(ns) == n:
             acc = False                   # no stopping test was evaluated on the estimates of the pass that returns
@@ -536,7 +546,46 @@ class ResultsFromTheSamples(Lemma):
         return (bool(bad), {"rows": [n, n + k], "second_pass_results": got, "from_all_stored_rows": {a: [float(v) for v in b] for a, b in want.items()}})
 
 
-UNITS = [ComputeLevel(), StatisticExtend(), StatisticAdd(), PriceIdentity(), PriceLoop(), ResultsFromTheSamples()]
+class AdjustedStatisticsAreSeparate(Lemma):
+    """MCStatistics.__init__ (real body): the statistics of the control-variate ADJUSTED payoff are a separate object with a
+    separate array -- storing the adjusted payoffs (attribute assignment, as compute_coefficients does, or an in-place write)
+    never overwrites a simulated raw payoff ("no simulated sample is ... overwritten")."""
+    prop = "C05"
+    name = "property:adjusted-payoffs-never-overwrite-the-simulated-ones"
+
+    def prove(self, vc, case):
+        n = 2
+        xs = vc.reals("payoff", n)
+        A = np.empty((n, 1), dtype=object)
+        for i in range(n):
+            A[i, 0] = xs[i]
+        raw = vc.obj(ST + "Statistic", stats=A)
+        mc = vc.new(ST + "MCStatistics", payoff_statistics=raw, control_variates_statistics=vc.obj(ST + "NoStatistic"))
+        adj = mc.fields["_payoff_statistics_with_cv"]
+        vc.check(self.name + "::separate-object", adj is not mc.fields["_payoff_statistics"] and adj is not raw)
+        y = vc.reals("adjusted", n)
+        B = np.asarray(adj.fields["stats"], dtype=object) if hasattr(adj, "fields") else None
+        vc.check(self.name + "::starts-as-a-copy-of-the-simulated-payoffs", B is not None and B.shape == (n, 1) and And(*[compare(B[i, 0], xs[i], "==") for i in range(n)]))
+        if B is None:
+            return
+        adj.fields["stats"][0, 0] = y[0]                                           # in-place write of an adjusted payoff
+        adj.fields["stats"] = np.array([[y[0]], [y[1]]], dtype=object)             # replacement, as compute_coefficients does
+        R = np.asarray(mc.fields["_payoff_statistics"].fields["stats"], dtype=object)
+        vc.check(self.name + "::simulated-payoffs-untouched", R.shape == (n, 1) and And(*[compare(R[i, 0], xs[i], "==") for i in range(n)]))
+
+    def replay(self, model, clause, case):
+        from rpylib.montecarlo.statistic.statistic import MCStatistics, Statistic, NoStatistic
+        st = Statistic.__new__(Statistic)
+        st.stats = np.array([[1.0], [2.0]])
+        mc = MCStatistics(payoff_statistics=st, control_variates_statistics=NoStatistic())
+        mc._payoff_statistics_with_cv.stats[0, 0] = 9.0
+        mc._payoff_statistics_with_cv.stats = np.array([[9.0], [8.0]])
+        raw = mc._payoff_statistics.stats
+        return (not np.allclose(raw, [[1.0], [2.0]]) or mc._payoff_statistics_with_cv is mc._payoff_statistics,
+                {"simulated_payoffs_after_storing_adjusted_ones": np.asarray(raw).tolist(), "same_object": mc._payoff_statistics_with_cv is mc._payoff_statistics})
+
+
+UNITS = [ComputeLevel(), StatisticExtend(), StatisticAdd(), PriceIdentity(), PriceLoop(), ResultsFromTheSamples(), AdjustedStatisticsAreSeparate()]
 ASSUMPTIONS = ["A1: floats are mathematical reals", "each call of the simulator returns a fresh sample; its payoffs are functions of the sample (C17)",
                "the (n,1,2) payoff array of a level is represented by its fine and coarse columns"]
 TRUSTED_BASE = ["z3 5.1 (LRA + arrays)", "pyvc interpreter + numpy models"]
